@@ -13,7 +13,7 @@ import (
 	"verifharness/internal/val"
 )
 
-var c20Floor = []string{"set", "get", "get.unset", "get.after-set-same-row", "get.before-set-same-row", "set.overwrite", "set.expr", "set.literal", "where", "prepopulated", "queries.2", "queries.3+", "keys.multi", "table.empty"}
+var c20Floor = []string{"set", "get", "get.unset", "get.after-set-same-row", "get.before-set-same-row", "set.overwrite", "set.expr", "set.literal", "where", "prepopulated", "queries.2", "queries.3+", "keys.multi", "table.empty", "dual"}
 
 func init() {
 	fw.Register(&fw.Prop{
@@ -97,8 +97,22 @@ func c20Run(c *fw.Case) {
 	for qi := 0; qi < nq; qi++ {
 		n := 1 + c.Intn(8)
 		var items []c20Item
+		dual := (force == "dual" && qi == 0) || (force == "" && c.Chance(0.15))
 		for i := 0; i < n; i++ {
 			k := gen.Pick(c.R, keys)
+			if dual {
+				// FROM dual: one evaluation, literals only
+				if c.Chance(0.5) {
+					var e gen.Expr = gen.NumLit{V: gen.RandNum(c.R)}
+					if c.Chance(0.5) {
+						e = gen.StrLit{S: gen.RandString(c.R, gen.Plain, 2)}
+					}
+					items = append(items, c20Item{kind: "set", key: k, expr: e})
+				} else {
+					items = append(items, c20Item{kind: "get", key: k, alias: fmt.Sprintf("g%d", i)})
+				}
+				continue
+			}
 			switch c.Intn(5) {
 			case 0, 1:
 				var e gen.Expr
@@ -122,7 +136,7 @@ func c20Run(c *fw.Case) {
 				items = append(items, c20Item{kind: "col", col: gen.Pick(c.R, []string{"rid", "n1", "s1"})})
 			}
 		}
-		if qi == 0 {
+		if qi == 0 && !dual {
 			switch force {
 			case "get.unset":
 				items = append([]c20Item{{kind: "get", key: "never", alias: "gu"}}, items...)
@@ -135,7 +149,7 @@ func c20Run(c *fw.Case) {
 			}
 		}
 		var where gen.Pred
-		if force == "where" || c.Chance(0.3) {
+		if !dual && (force == "where" || c.Chance(0.3)) {
 			where = pg.Gen()
 			feats = append(feats, "where")
 		}
@@ -152,13 +166,19 @@ func c20Run(c *fw.Case) {
 			}
 		}
 		sql := "SELECT " + strings.Join(parts, ", ") + " FROM t1"
+		rowsOf := t.Rows
+		if dual {
+			sql = "SELECT " + strings.Join(parts, ", ") + " FROM dual"
+			rowsOf = []map[string]any{{}}
+			feats = append(feats, "dual")
+		}
 		if where != nil {
 			sql += " WHERE " + gen.RenderPred(where, ro)
 		}
 		history = append(history, sql)
 		// model
 		var want []any
-		for _, row := range t.Rows {
+		for _, row := range rowsOf {
 			env := ref.Env{Row: row}
 			if where != nil {
 				ok, err := ref.EvalPred(where, env)
